@@ -356,7 +356,13 @@ func clipDestination(a, b, scaledN, aTan, bTan pointUVW, scaleUV float64) (r2.Po
 		if b.Z <= 0 {
 			score = 3 // B cannot be projected onto this face.
 		} else {
-			uv = r2.Point{X: b.X / b.Z, Y: b.Y / b.Z}
+			// B is used as it is; rounding can put its projection one ulp
+			// outside the (padded) face square it mathematically lies in or
+			// on, so clamp it to keep the documented guarantee.
+			uv = r2.Point{
+				X: math.Max(-scaleUV, math.Min(scaleUV, b.X/b.Z)),
+				Y: math.Max(-scaleUV, math.Min(scaleUV, b.Y/b.Z)),
+			}
 		}
 	}
 
